@@ -74,6 +74,7 @@ pub struct Agg {
     pub deep_pairs: BTreeSet<(u64, u64)>,
     /// orbifold invariant strings (space-group table keys) seen with verdict yes
     pub inv_seen: BTreeSet<String>,
+    pub distinct_states: BTreeSet<u64>,
 }
 
 fn bump(m: &mut BTreeMap<String, u64>, k: &str) {
@@ -176,6 +177,9 @@ impl Agg {
         for (k, v) in &rec.probes {
             *self.probes.entry(k.clone()).or_insert(0) += v;
         }
+        for f in &rec.state_fps {
+            self.distinct_states.insert(*f);
+        }
         if rec.states_checked > 0 {
             self.states_checked += rec.states_checked as u64;
             self.runs_with_states += 1;
@@ -200,7 +204,10 @@ impl Agg {
         if spec.op == Op::IsEuclidean {
             bump(&mut self.reasons, &format!("{}: {}", rec.outcome, if rec.outcome == "panic" { "(panic)" } else { &rec.detail }));
         }
-        if self.samples.len() < 6 || (self.samples.len() < 12 && !rec.decisions.is_empty() && self.evaluations % 97 == 0) {
+        // a couple of trivial runs, then runs that passed hash-order decisions
+        // (spread over the batch), steered ones included
+        let nontrivial = rec.decisions.iter().any(|&(n, _, _)| n >= 2);
+        if self.samples.len() < 2 || (self.samples.len() < 12 && nontrivial && (self.evaluations % 211 == 0 || (!spec.steer.is_empty() && self.evaluations % 13 == 0))) {
             self.samples.push(json!({"spec": spec.to_json(), "record": rec.log_json()}));
         }
 
